@@ -40,7 +40,13 @@ S3(p) == /\ pc[p] = "s3" /\ res' = [res EXCEPT ![p] = scratch[Loc(p)] + tables]
 M0 == 46337
 Mix(a) == ((a % M0) * (a % M0) + 12345) % M0
 H(seed, i) == Mix(Mix(Mix((i % M0) * 7919 + seed * 104 + 17) + (i \div M0)) + seed)
-PlanOf(j) == LET G == <<2, 3, 4, 8, 16, 32, 64>>[1 + (H(j, 0) % 7)] IN
+\* plans 0..16 are "storms": sixteen goroutines run the SAME test (j+1) on inputs of three different lengths, three rounds --
+\* whatever a test keeps per call size or per call (a plan cache, a scratch matrix, a lazily filled table) is then hit
+\* concurrently with different sizes; the remaining plans are random mixes
+PlanOf(j) == IF j < 17 THEN
+   [ev |-> "plan", id |-> j, goroutines |-> 16,
+    tasks |-> [g \in 1..16 |-> [test |-> j + 1, shared |-> (g % 4 # 0), input |-> g % 3]], rounds |-> 3]
+  ELSE LET G == <<2, 3, 4, 8, 16, 32, 64>>[1 + (H(j, 0) % 7)] IN
    [ev |-> "plan", id |-> j, goroutines |-> G,
     tasks |-> [g \in 1..G |-> [test |-> 1 + (H(j, g) % 17),          \* 1..15 registry tests, 16 = Round15, 17 = Round12
                                shared |-> (H(j + 1, g) % 2 = 0),     \* shared input slice or a private copy
